@@ -150,6 +150,9 @@ impl Prop for C09 {
     fn id(&self) -> &'static str {
         "C09"
     }
+    fn canary(&self) -> bool {
+        true
+    }
     fn rule(&self) -> String {
         "cases = a list of 0-1023 column descriptors (table/column names of 0 to 70000 bytes biased to 249-256 and 65534-65537, non-ASCII UTF-8, plus enumerated ~16 MiB names that make one definition as large as, or larger than, a wire packet; every ColumnType variant; flag words from all 16 bits) used as a text resultset header, a binary resultset header, or a PREPARE reply (arbitrary u32 statement id, independent parameter and column lists); one case in eight is one reply of 2-4 resultsets whose column lists are prefixes of one list (the empty prefix included: a column-less resultset between others) and reach the library as slices of one allocation; one case in six is a sequence of 2-6 PREPAREs whose replies take their ids from a pool of three, so that an id that is still open (possibly with pending long data or after an execution) or was just closed is handed out again with other parameter / column lists, and every reply is checked. Oracle: decoded count and per column table, name, type, flags in order equal the declared ones; PREPARE_OK id / num_params / num_columns equal; mysql_common's Column parser agrees. Non-trivial = > 250 columns, or a name > 250 bytes, or flags with >= 3 bits.".into()
     }
